@@ -481,6 +481,15 @@ fn check() {
         ("inline-comment", " /* x */ "),
         ("eol-comment", " # c\n"),
         ("eol-comment-empty", " #\n"),
+        // every kind of line break is a line break: alone, and as the end of a comment
+        ("cr", "\r"),
+        ("eol-comment-crlf", " # c\r\n"),
+        ("eol-comment-cr", " # c\r"),
+        ("eol-comment-empty-cr", "#\r"),
+        ("two-eol-comments-cr", " #a\r#b\r"),
+        ("eol-comment-holding-an-inline-one", " # /* c\n"),
+        ("inline-comment-holding-a-hash", "/* # */"),
+        ("inline-comment-over-lines", "/* a\n b\r c */"),
     ];
     let mut basis: Vec<Vec<String>> = vec![];
     let tk = |s: &str| s.split(' ').map(|x| x.to_string()).collect::<Vec<String>>();
@@ -593,7 +602,7 @@ fn check() {
         "exhaustive": true,
         "states": distinct, "transitions": parses, "traces_validated_against_impl": parses,
         "evaluations": parses, "distinct_nontrivial": distinct,
-        "rule": "every binary spelling alone; all ordered pairs of the 26 spellings; all ordered triples (thorough: 4-chains) of the 23 canonical binary operators, minimal and fully parenthesised text vs precedence-climbing reference built from milu/readme.md; unary x binary, binary x postfix, ternary nesting; 9 fillers at every token boundary of a basis of expressions. distinct = distinct parse trees produced by the real parser",
+        "rule": "every binary spelling alone; all ordered pairs of the 26 spellings; all ordered triples (thorough: 4-chains) of the 23 canonical binary operators, minimal and fully parenthesised text vs precedence-climbing reference built from milu/readme.md; unary x binary, binary x postfix, ternary nesting; 17 fillers (blanks, LF / CRLF / lone CR, inline and end-of-line comments ended by each kind of line break) at every token boundary of a basis of expressions. distinct = distinct parse trees produced by the real parser",
         "cases": cases, "operator_chains": chains, "boundary_cases": boundary_cases,
         "readme_rows": table.rows, "binary_spellings": table.bins.len(), "unary": table.unaries.len(),
         "samples": samples,
